@@ -273,7 +273,9 @@ def scaling_leg(ctx):
 
     for kind in ("rre", "corre", "hextile", "cuttext", "colourmap", "raw", "raw-chunked", "cuttext-chunked", "bells"):
         # sub-rectangle tables: large enough for a per-item copy of the remaining block to dominate the per-item overhead
-        N = (15000 if kind in ("rre", "corre", "bells") else 20000 if kind.endswith("-chunked") else 6000) * (1 if ctx.tier == "quick" else 2)
+        # (bells: each message is ONE byte, the per-message interpreter overhead is large against a memmove of the rest of the
+        # buffer - the run has to be long for a quadratic term to show: 160 000 / 640 000 messages)
+        N = (40000 if kind == "bells" else 15000 if kind in ("rre", "corre") else 20000 if kind.endswith("-chunked") else 6000) * (1 if ctx.tier == "quick" else 2)
         t1, e1, b1 = cost(kind, N)
         t4, e4, b4 = cost(kind, 4 * N)
         ctx.count("scaling_probes")
